@@ -29,6 +29,14 @@ NameStable(p, e) == \A n \in RNames(p) \cap RNames(e) : LiveFor(p, n) = LiveFor(
 \* the composition-resource-name annotation of a composed resource names the desired resource / template its body was
 \* rendered from (o.made: the scripted bodies carry their name in spec.param) - whatever annotation the author's body carried
 Tie(e) == \A o \in Owned(e) : (o.made # "-" /\ o.rname # "-") => o.rname = o.made
+\* a composed resource that is being deleted but still exists (deletionTimestamp set, a finalizer pending) still holds its
+\* name: while its desired resource / template is still wanted and the XR controls it, a reconcile does not drop its
+\* reference (and so does not compose a second resource next to it).  (Added after the seeded change C01-m7 - the P&T
+\* associator treats a terminating resource as gone - was missed: NoLeak / AtMostOne speak about live resources only.)
+Held(e) == {o \in Objs(e) : o.ctrl = "xr" /\ o.rname # "-" /\ o.id \in Refs(e)}
+RefKept(p, e) ==
+  e.ev = "call" =>
+    \A o \in Held(p) : (o.rname \in Range(e.want) /\ \E q \in Objs(e) : q.id = o.id /\ q.ctrl = "xr" /\ q.rname = o.rname) => o.id \in Refs(e)
 \* once a fault-free reconcile completed, the next fault-free reconcile (same desired state) changes no object:
 \* the digest over all resourceVersions in the store is the one recorded at the end of the previous reconcile
 Quiescent(e) == (e.ev = "end" /\ e.steady) => e.post.digest = e.prevDigest
@@ -78,6 +86,7 @@ Check(i) ==
   /\ (e.ev = "reset" \/ i = 1 \/
         LET p == Trace[i - 1] IN
         /\ (NameStable(p, e) \/ Viol("NameStable", i))
+        /\ (RefKept(p, e) \/ Viol("RefKept", i))
         /\ (FailSafeRefs(p, e) \/ Viol("FailSafe.Refs", i))
         /\ (NeverDeleteDesired(p, e) \/ Viol("NeverDeleteDesired", i))
         /\ (NeverDeleteDesiredMade(p, e) \/ Viol("NeverDeleteDesired.Made", i))
